@@ -22,7 +22,8 @@ def int_case(draw):
     nd = len(g["n"])
     return {"g": g, "nvdim": draw(st.integers(1, 4)), "seed": draw(st.integers(0, 2**31)),
             "seed2": draw(st.integers(0, 2**31)),
-            "dtype": draw(st.sampled_from(["float", "float", "complex", "int"])),
+            # narrow storage types: running sums leave the range of the dtype (counts, masks)
+            "dtype": draw(st.sampled_from(["float", "float", "complex", "int", "uint8", "int8", "int16", "bool"])),
             "pre": draw(st.sampled_from(["none", "none", "rot-inplace", "scale-inplace", "region-scale-inplace"])),
             "pre_k": draw(st.sampled_from([1, 3, -1])),
             "order": list(draw(st.permutations(range(nd)))),
@@ -39,10 +40,15 @@ def build(case, seedkey="seed", mesh=None, allow_pre=False):
     g = case["g"]
     n = tuple(g["n"])
     mesh = mesh if mesh is not None else gen.build_mesh(g)
-    arr = gen.make_array(case[seedkey], (*n, case["nvdim"]), "int", "float" if case["dtype"] == "int" else case["dtype"])
-    dt = {"complex": np.complex128, "int": np.int64}.get(case["dtype"])
+    narrow = case["dtype"] in ("uint8", "int8", "int16", "bool")
+    arr = gen.make_array(case[seedkey], (*n, case["nvdim"]), "int",
+                         "float" if case["dtype"] == "int" or narrow else case["dtype"])
+    dt = {"complex": np.complex128, "int": np.int64, "uint8": np.uint8, "int8": np.int8, "int16": np.int16,
+          "bool": np.bool_}.get(case["dtype"])
     if case["dtype"] == "int":
         arr = arr.astype(np.int64)
+    elif narrow:
+        arr = {"uint8": np.abs(arr) * 28, "int8": arr * 14, "int16": arr * 3600, "bool": arr > 0}[case["dtype"]].astype(dt)
     f = df.Field(mesh, nvdim=case["nvdim"], value=arr, dtype=dt, unit=case["unit"], valid=gen.make_mask(case["mask"], n))
     pre = case.get("pre", "none")
     if allow_pre and pre != "none" and mesh.region.ndim >= 2 and case["nvdim"] == 1:
@@ -57,7 +63,7 @@ def build(case, seedkey="seed", mesh=None, allow_pre=False):
             f.mesh.region.scale(tuple(1.0 if i == 0 else 0.5 for i in range(len(dims))), inplace=True)
         arr = f.array.copy()
         tag("pre-" + pre)
-    return f.mesh, f, arr.astype(float) if case["dtype"] == "int" else arr
+    return f.mesh, f, arr.astype(float) if (case["dtype"] == "int" or case["dtype"] in ("uint8", "int8", "int16", "bool")) else arr
 
 
 _SCALE = {"v": None}
